@@ -136,12 +136,7 @@ func mergeConfigDict(opts *options, to, from *Config) Error {
 }
 
 func mergeConfigArr(opts *options, to, from *Config) Error {
-	currHandling := opts.configValueHandling
-	opts, err := fieldOptsOverride(opts, "*", -1)
-	if err != nil {
-		return err
-	}
-	switch currHandling {
+	switch opts.configValueHandling {
 	case cfgReplaceValue, cfgArrReplaceValue:
 		return mergeConfigReplaceArr(opts, to, from)
 
@@ -191,7 +186,7 @@ func mergeConfigMergeArr(opts *options, to, from *Config) Error {
 		}
 
 		// possible for individual index to be replaced
-		idxOpts, err := fieldOptsOverride(opts, "", i)
+		idxOpts, err := fieldOptsOverrideIdx(opts, i)
 		if err != nil {
 			return err
 		}
@@ -623,10 +618,9 @@ func fieldOptsOverride(opts *options, fieldName string, idx int) (*options, Erro
 		// combined with optimizations in `includeWildcard` will ensure that only
 		// a new opts will be created and returned when absolutely required.
 		//
-		// A named key without an entry leaves the configured field paths:
-		// nothing below it can match anymore, so the tree is dropped. Array
-		// lookups ("*" and indices) keep the current level.
-		leaves := child == nil && idx < 0 && fieldName != "*"
+		// A key or list element without an entry leaves the configured field
+		// paths: nothing below it can match anymore, so the tree is dropped.
+		leaves := child == nil
 		if (child != nil || leaves) && opts.fieldHandlingTree != child {
 			newOpts := *opts
 			newOpts.fieldHandlingTree = child
@@ -642,6 +636,17 @@ func fieldOptsOverride(opts *options, fieldName string, idx int) (*options, Erro
 		opts = &newOpts
 	}
 	return opts, nil
+}
+
+// fieldOptsOverrideIdx selects the options for list element idx: the entry
+// configured for that index, else the entry for all elements ("*").
+func fieldOptsOverrideIdx(opts *options, idx int) (*options, Error) {
+	if t := opts.fieldHandlingTree; t != nil {
+		if _, child, ok := t.fieldHandling("", idx); ok || child != nil {
+			return fieldOptsOverride(opts, "", idx)
+		}
+	}
+	return fieldOptsOverride(opts, "*", -1)
 }
 
 func includeWildcard(child *fieldHandlingTree, parent *fieldHandlingTree) (*fieldHandlingTree, Error) {
